@@ -138,6 +138,11 @@ def shrink(program: dict, fails, *, budget_s=60.0, keep=None) -> dict:
             c = copy.deepcopy(best)
             idx = [s["id"] for s in c["stmts"]].index(st["id"])
             victim = c["stmts"].pop(idx)
+            if victim["op"] == "arrange":
+                # the order that justified a sequence comparison is gone
+                for s_ in c["stmts"]:
+                    if s_["op"] == "export":
+                        s_["ordered"] = False
             if victim.get("src"):
                 # bypass: redirect users to the source of the removed verb
                 def redirect(j):
@@ -169,6 +174,10 @@ def shrink(program: dict, fails, *, budget_s=60.0, keep=None) -> dict:
                         s2 = next(s for s in c["stmts"] if s["id"] == st["id"])
                         if i < len(s2[key]) and len(s2[key]) > 1:
                             s2[key].pop(i)
+                            if s2["op"] == "arrange":
+                                for s_ in c["stmts"]:
+                                    if s_["op"] == "export":
+                                        s_["ordered"] = False
                             if attempt(c):
                                 progress = True
                                 break
